@@ -7,6 +7,7 @@ import (
 	"math"
 	"math/bits"
 	"strings"
+	"sync"
 	"sync/atomic"
 )
 
@@ -28,19 +29,55 @@ type Term struct {
 	id   int64
 	size int // number of nodes (tree size, saturating)
 	sym  bool
+	hard bool // contains multiply/divide/remainder with a symbolic operand (stalls bit-blasting)
+	side []*Term // defining axioms of fresh symbols inside this term (asserted wherever the term is used)
 }
 
 var termCounter int64
 
 func newTerm(op string, sort Sort, w int, args ...*Term) *Term {
 	sz := 1
+	hard := false
 	for _, a := range args {
 		sz += a.size
 		if sz > 1<<20 {
 			sz = 1 << 20
 		}
+		hard = hard || a.hard
 	}
-	return &Term{op: op, args: args, sort: sort, w: w, id: atomic.AddInt64(&termCounter, 1), size: sz}
+	var side []*Term
+	for _, a := range args {
+		if len(a.side) > 0 {
+			side = append(side, a.side...)
+		}
+	}
+	if len(side) > 8 {
+		seen := map[*Term]bool{}
+		var u []*Term
+		for _, x := range side {
+			if !seen[x] {
+				seen[x] = true
+				u = append(u, x)
+			}
+		}
+		side = u
+	}
+	switch op {
+	case "bvsdiv", "bvsrem", "bvudiv", "bvurem":
+		hard = true
+	case "bvmul":
+		// multiplication by a power of two is a shift
+		hard = true
+		for _, a := range args {
+			if a.conc && a.cv&(a.cv-1) == 0 {
+				hard = false
+			}
+		}
+		for _, a := range args {
+			hard = hard || a.hard
+		}
+	}
+	return &Term{op: op, args: args, sort: sort, w: w, id: atomic.AddInt64(&termCounter, 1), size: sz, hard: hard, side: side}
 }
 
 func mask(w int) uint64 {
@@ -313,9 +350,61 @@ func bvNeg(a *Term) *Term {
 	return newTerm("bvneg", SBV, a.w, a)
 }
 
+// divModConst introduces the quotient and remainder of the unsigned division of a by the constant c as fresh
+// symbols defined by a = q*c + r, r < c, q <= max/c (no wrap-around): a multiplication by a constant instead of a
+// division circuit. Memoised per (a, c).
+var divMemo sync.Map
+
+type divKey struct {
+	a *Term
+	c uint64
+}
+type divRes struct{ q, r *Term }
+
+func divModConst(a *Term, c uint64) (q, r *Term) {
+	if v, ok := divMemo.Load(divKey{a, c}); ok {
+		dr := v.(divRes)
+		return dr.q, dr.r
+	}
+	id := atomic.AddInt64(&termCounter, 1)
+	q = symTerm(fmt.Sprintf("divq_%d", id), SBV, a.w)
+	r = symTerm(fmt.Sprintf("divr_%d", id), SBV, a.w)
+	cc := bvConst(a.w, c)
+	qc := newTerm("bvmul", SBV, a.w, q, cc)
+	ax := tAndN(
+		bvUle(q, bvConst(a.w, mask(a.w)/c)), // q*c does not wrap
+		bvUle(qc, a),                          // so that a - q*c is the true difference
+		tEq(r, bvSub(a, qc)),
+		bvUlt(r, cc),
+	)
+	q.side = []*Term{ax}
+	r.side = []*Term{ax}
+	divMemo.Store(divKey{a, c}, divRes{q, r})
+	return q, r
+}
+
+func constDivisor(b *Term) (uint64, bool) {
+	if !b.conc || b.cv == 0 || b.cv&(b.cv-1) == 0 {
+		return 0, false
+	}
+	return b.cv, true
+}
+
+// signedDivMod: Go's truncated division of a by a positive constant c through the unsigned magnitudes.
+func signedDivMod(a *Term, c uint64) (q, r *Term) {
+	neg := bvSlt(a, bvConst(a.w, 0))
+	mag := tIte(neg, bvNeg(a), a)
+	qm, rm := divModConst(mag, c)
+	return tIte(neg, bvNeg(qm), qm), tIte(neg, bvNeg(rm), rm)
+}
+
 // division: caller guarantees divisor != 0 on this path.
 func bvSDiv(a, b *Term) *Term {
 	w := a.w
+	if c, ok := constDivisor(b); ok && !a.conc && sext(c, w) > 0 {
+		q, _ := signedDivMod(a, c)
+		return q
+	}
 	return bvBin("bvsdiv", a, b, func(x, y uint64) uint64 {
 		sx, sy := sext(x, w), sext(y, w)
 		if sy == 0 {
@@ -329,6 +418,10 @@ func bvSDiv(a, b *Term) *Term {
 }
 func bvSRem(a, b *Term) *Term {
 	w := a.w
+	if c, ok := constDivisor(b); ok && !a.conc && sext(c, w) > 0 {
+		_, r := signedDivMod(a, c)
+		return r
+	}
 	return bvBin("bvsrem", a, b, func(x, y uint64) uint64 {
 		sx, sy := sext(x, w), sext(y, w)
 		if sy == 0 || sy == -1 {
@@ -338,6 +431,10 @@ func bvSRem(a, b *Term) *Term {
 	})
 }
 func bvUDiv(a, b *Term) *Term {
+	if c, ok := constDivisor(b); ok && !a.conc {
+		q, _ := divModConst(a, c)
+		return q
+	}
 	return bvBin("bvudiv", a, b, func(x, y uint64) uint64 {
 		if y == 0 {
 			return 0
@@ -346,6 +443,10 @@ func bvUDiv(a, b *Term) *Term {
 	})
 }
 func bvURem(a, b *Term) *Term {
+	if c, ok := constDivisor(b); ok && !a.conc {
+		_, r := divModConst(a, c)
+		return r
+	}
 	return bvBin("bvurem", a, b, func(x, y uint64) uint64 {
 		if y == 0 {
 			return 0
